@@ -216,7 +216,7 @@ Definition ex6_open (e q : N) (a c : bytes) : option bytes :=
   if ((e =? 3) || (e =? 4)) && bytes_eqb c (repeat e 16 ++ [q]) then Some [q; 23] else None.
 Definition ex6_rec (e q : N) : bytes := [44 + e mod 4; 0; q; 0; 17] ++ repeat e 16 ++ [q].
 Example C06_13_example :
-  let s := mk_rstate 3 (Some 3) [2] [] [] [] [] false false false in
+  let s := mk_rstate 3 (Some 3) [2] [] [] [] [] false false false true in
   map (fun d => snd d) (deliveries (snd (run_ops (fun _ _ => 0) ex6_open (fun _ => true) 64 s
     [Arrive (ex6_rec 3 1); Arrive (ex6_rec 3 0); Arrive (ex6_rec 3 1); Arrive (ex6_rec 4 0);
      InstallRead 4; SetRemoteEpoch 4; Drain; Arrive (ex6_rec 4 0); Arrive (ex6_rec 3 2); Arrive (ex6_rec 3 0)])))
